@@ -1175,6 +1175,44 @@ class WannierSeed:
         return bool(r.get("differs")) or bool(r.get("crash")), dict(check="two calls with random_guess=True and the same seed", result=r)
 
 
+class WannierCallers:
+    """The side condition of C20.get_wannier.seeded at every call site INSIDE the package: a caller that can ask for the random start hands on a seed that is a
+    parameter of the caller or a constant (never None / absent). Decided on the AST of every module; refutations are replayed natively (the caller twice)."""
+
+    def sites(self):
+        out = []
+        for modname, path in package_modules():
+            tree = ast.parse(path.read_text())
+            for fname, fnode in _functions(tree):
+                params = {a.arg for a in fnode.args.args + fnode.args.kwonlyargs}
+                for c in ast.walk(fnode):
+                    if not (isinstance(c, ast.Call) and _dotted(c.func).split(".")[-1] == "get_wannier"):
+                        continue
+                    kw = {k.arg: k.value for k in c.keywords if k.arg}
+                    star = any(k.arg is None for k in c.keywords)
+                    rg = kw.get("random_guess", c.args[5] if len(c.args) > 5 else None)
+                    sd = kw.get("seed", c.args[6] if len(c.args) > 6 else None)
+                    can_be_random = star or (rg is not None and not (isinstance(rg, ast.Constant) and rg.value is False))
+                    seeded = sd is not None and ((isinstance(sd, ast.Name) and sd.id in params) or (isinstance(sd, ast.Constant) and isinstance(sd.value, int) and not isinstance(sd.value, bool)))
+                    out.append(dict(module=modname, function=fname, line=c.lineno, call=_dotted(c)[:100], can_be_random=can_be_random, seeded=seeded))
+        return out
+
+    def __call__(self, ob, tier, seed):
+        sites = self.sites()
+        bad = [x for x in sites if x["can_be_random"] and not x["seeded"]]
+        if bad:
+            ok, info = self.replay(dict(site=bad[0]))
+            return Result(REFUTED if ok else UNDECIDED, backend="ast-dataflow", witness=dict(site=bad[0]), replayed=bool(ok), replay_info=info,
+                          detail=f"{bad[0]['module']}.{bad[0]['function']} (line {bad[0]['line']}) can ask get_wannier for a random start without handing on a seed: `{bad[0]['call']}`")
+        return Result(DISCHARGED, backend="ast-dataflow", stats=dict(call_sites=len(sites)), detail=f"{len(sites)} call sites of get_wannier in the package: none can request the random start without a seed")
+
+    def replay(self, wit):
+        r = run_scenario("wannier_callers")
+        return bool(r.get("differs")) or bool(r.get("crash")), dict(check="WO / FLO-type callers of get_wannier called twice on the same SCF object (two occupied states)", result=r)
+
+
+register(Obligation(name="C20.get_wannier.callers_hand_on_a_seed", prop=PROP, engine="Z", functions=["eminus.orbitals:WO", "eminus.localizer:get_wannier"], run=WannierCallers(),
+                    assumes=("rng",), doc="every call site of get_wannier inside the package that can request the random unitary start hands on a seed (parameter or constant)"))
 register(Obligation(name="C20.get_wannier.seeded", prop=PROP, engine="Z", functions=["eminus.localizer:get_wannier"], run=WannierSeed(),
                     assumes=("rng",), doc="get_wannier: the random unitary start is drawn from the seed parameter"))
 
